@@ -45,8 +45,13 @@ def adj_flags(flags, to_bytes):
 
 def as_union(x, kind):
     """view of a pattern-list element as one of the alternatives (a concrete object is what its type says)"""
-    if isinstance(x, (Union, ConcUnion)):
+    if isinstance(x, (Union, ConcUnion, PatUnion)):
         return x
+    if isinstance(x, Pat):
+        return PatUnion(x)
+    if is_sym(x):
+        # a string term written in the code under verification (e.g. self.crlf): of the object's own string type
+        return ConcUnion('native' if str(x.sort()) == 'String' else 're', x)
     import re
     native, other = (bytes, str) if kind == 'b' else (str, bytes)
     if isinstance(x, ClassConst):
@@ -58,6 +63,24 @@ def as_union(x, kind):
     if isinstance(x, re.Pattern):
         return ConcUnion('re', x)
     return ConcUnion('bad', x)
+
+
+class PatUnion:
+    """a pattern-list element known only as marker / text (element of a list literal read at a symbolic index)"""
+    def __init__(self, p):
+        self.p = p
+
+    def is_(self, label):
+        if label == 'eof':
+            return pat_is_eof(self.p)
+        if label == 'timeout':
+            return pat_is_timeout(self.p)
+        if label == 'native':
+            return pat_is_text(self.p)
+        return False
+
+    def val(self, label):
+        return pat_val(self.p)
 
 
 def is_listlike(x):
@@ -228,18 +251,21 @@ class CompilePatternList(Contract):
 
     def ensures(self, v):
         kind = 'b' if v.old.self.encoding is None else 's'
-        if v.raised in ('UnicodeEncodeError', 'UnicodeDecodeError'):
-            return []
         bad = getattr(v, 'bad', None)
         pats = v.old.patterns
         if getattr(v, 'concrete', False):
+            if v.raised in ('UnicodeEncodeError', 'UnicodeDecodeError'):
+                return []
             bad = witness(v, 'bad', pats.len, lambda k: not acceptable(pats.get(k), kind)) if is_listlike(pats) else None
         elif bad is None and v.raised is not None and is_listlike(pats):
             bad = v.l.idx        # inside the function: the element being looked at when it raised
+        if v.raised in ('UnicodeEncodeError', 'UnicodeDecodeError'):
+            return unicode_error_post(v.raised, pats, kind, bad)
         return compiled_post(v, v.old.patterns, kind, v.old.self.ignorecase, v.result, bad)
 
     def effects(self, v):
-        v.bad = v.draw(T.Int, 'bad')    # call site: which element was rejected (only meaningful on TypeError)
+        v.bad = v.draw(T.Int, 'bad')    # call site: which element was rejected (only meaningful on an exception)
+        v.g['cpl.bad'] = v.bad
 
 
 def patterns_param(b, kind, name='patterns'):
@@ -249,6 +275,19 @@ def patterns_param(b, kind, name='patterns'):
     if form == 'single':
         return b.union(name, pattern_alts(kind))
     return b.symlist(name, [('p', TUnion(pattern_alts(kind)))], scalar=True)
+
+
+def unicode_error_post(raised, pats, kind, i):
+    """a codec error can only come from a pattern given in the other string type: text that is not ASCII given to a
+    bytes-mode object, or a bytes regex that is not UTF-8 given to a unicode-mode object"""
+    culprit = (lambda u: And(kind == 'b', Or(u.is_('other'), u.is_('re')))) if raised == 'UnicodeEncodeError' else \
+              (lambda u: And(kind == 's', u.is_('re')))
+    if pats is None:
+        return [('C20:codec-error-only-from-a-pattern-of-the-other-type', False)]
+    if not is_listlike(pats):
+        return [('C20:codec-error-only-from-a-pattern-of-the-other-type', culprit(as_union(pats, kind)))]
+    return [('C20:codec-error-only-from-a-pattern-of-the-other-type',
+             And(0 <= i, i < pats.len, culprit(as_union(pats.get(i), kind))))]
 
 
 def compiled_post(v, pats, kind, ic, result, bad_index):
@@ -327,6 +366,7 @@ class Expect(Contract):
     def effects(self, v):
         if v.label in ('TypeError', 'UnicodeEncodeError', 'UnicodeDecodeError'):
             v.rx, v.dt, v.nr = '', 0, 0
+            v.bad = v.draw(T.Int, 'bad')
             return
         expect_effects(v, v.old.self)
 
@@ -336,16 +376,21 @@ class Expect(Contract):
         pats = v.old.pattern
         if v.raised in ('TypeError', 'UnicodeEncodeError', 'UnicodeDecodeError'):
             out = [('C20:rejected-before-any-output-is-consumed', untouched(v, sp, v.new.self))]
+            # which element: drawn at a call site, the one compile_pattern_list named inside the function
+            bad = getattr(v, 'bad', None)
+            if bad is None and not getattr(v, 'concrete', False):
+                bad = v.g.get('cpl.bad')
             if v.raised == 'TypeError':
                 if is_listlike(pats):
                     if getattr(v, 'concrete', False):
                         bad = witness(v, 'bad', pats.len, lambda k: not acceptable(pats.get(k), kind))
-                        out.append(('C20:typeerror-only-for-a-non-pattern', And(0 <= bad, bad < pats.len, Not(acceptable(pats.get(bad), kind)))))
-                    # (prover: the rejected element is the one compile_pattern_list names; proved there)
+                    out.append(('C20:typeerror-only-for-a-non-pattern', And(0 <= bad, bad < pats.len, Not(acceptable(pats.get(bad), kind)))))
                 elif pats is not None:
                     out.append(('C20:typeerror-only-for-a-non-pattern', Not(acceptable(pats, kind))))
                 else:
                     out.append(('C20:typeerror-only-for-a-non-pattern', False))
+            elif not getattr(v, 'concrete', False):
+                out += unicode_error_post(v.raised, pats, kind, bad)
             return out
         return expect_outcome_post(v, sp, v.new.self, effective_timeout(sp, v.old.timeout), plist=ImageList(pats, kind)) + \
             [('C20:accepted-only-patterns', True if pats is None else (forall(0, pats.len, lambda k: acceptable(pats.get(k), kind)) if is_listlike(pats) else acceptable(pats, kind)))]
@@ -452,6 +497,91 @@ class ExpectExact(Contract):
             [('C20:accepted-only-patterns', acc)]
 
 
+# ---- read / readline: file-like reads built on expect() -----------------------------------------------------------
+def file_spawn(b):
+    def extra(bb, kind):
+        d = pattern_extra(bb, kind)
+        d.update(crlf=bb.const(b'\r\n' if kind == 'b' else '\r\n'), delimiter=bb.cls('EOF'))
+        return d
+    sp, kind = spawn_shape(b, name='self', loop=True, defaults=True, extra=extra)
+    b.ghost('R', b'' if (kind == 'b' and hasattr(b, 'source')) else '')
+    b.ghost('clk', b.real('clk0'))
+    b.ghost('nreads', 0)
+    return sp, kind
+
+
+class ReadLine(Contract):
+    """readline(size): one expect([crlf, EOF]); returns the text before the line end plus the line end, or - at EOF -
+    everything that was left; size == 0 returns the empty string and touches nothing."""
+    name = SB + '.readline'
+    props = ('C01', 'C04')
+    standin = False
+
+    def shape(self, b):
+        sp, kind = file_spawn(b)
+        c = b.choice('size', ['default', 'zero', 'other'])
+        size = b.const(-1) if c == 'default' else (b.const(0) if c == 'zero' else b.int('size'))
+        return dict(self=sp, size=size)
+
+    def requires(self, v):
+        out = spawn_inv(v.a.self)
+        if is_sym(v.a.size):
+            import z3
+            if not z3.is_int_value(z3.simplify(v.a.size)):
+                out.append(('size-not-zero', Not(eq(v.a.size, 0))))
+        return out
+
+    def exits(self, v):
+        return ('TIMEOUT', 'OSError')
+
+    def ensures(self, v):
+        old, new = v.old.self, v.new.self
+        total = cat(pend_of(old), v.g['R'])
+        zero = eq(v.old.size, 0) is True
+        if zero:
+            return [('C01:size-zero-reads-nothing', And(eq(v.result, ''), untouched(v, old, new)))]
+        EOFc = ClassConst('EOF')
+        if v.raised is not None:
+            return [('C01+C04:failed-read-consumes-nothing', eq(pend_of(new), total))]
+        if eq(new.after, EOFc) is True:
+            return [('C01+C04:at-eof-returns-all-that-was-left', And(eq(v.result, total), eq(pend_of(new), '')))]
+        return [('C01:line-is-before-plus-line-end', eq(v.result, cat(new.before, old.crlf))),
+                ('C01:consumed-plus-pending-is-what-was-there', eq(cat(new.before, new.after, pend_of(new)), total))]
+
+
+class Read(ReadLine):
+    """read(size): size == 0 -> '' untouched; size < 0 -> one expect(EOF): everything up to EOF"""
+    name = SB + '.read'
+
+    def shape(self, b):
+        sp, kind = file_spawn(b)
+        c = b.choice('size', ['default', 'zero', 'negative'])
+        size = b.const(-1) if c == 'default' else (b.const(0) if c == 'zero' else b.int('size'))
+        return dict(self=sp, size=size)
+
+    def requires(self, v):
+        out = spawn_inv(v.a.self)
+        if is_sym(v.a.size):
+            import z3
+            if not z3.is_int_value(z3.simplify(v.a.size)):
+                out.append(('size-negative', v.a.size < 0))
+        return out
+
+    def exits(self, v):
+        return ('TIMEOUT', 'OSError')
+
+    def ensures(self, v):
+        old, new = v.old.self, v.new.self
+        total = cat(pend_of(old), v.g['R'])
+        if eq(v.old.size, 0) is True:
+            return [('C01:size-zero-reads-nothing', And(eq(v.result, ''), untouched(v, old, new)))]
+        if v.raised is not None:
+            return [('C01+C04:failed-read-consumes-nothing', eq(pend_of(new), total))]
+        return [('C01+C04:returns-everything-up-to-eof', And(eq(v.result, total), eq(pend_of(new), ''), eq(new.after, ClassConst('EOF'))))]
+
+
 def register(reg):
+    for c in (ReadLine, Read):
+        reg.add(c)
     for c in (CoerceExpectString, CoerceExpectRe, CompilePatternList, Expect, ExpectExact):
         reg.add(c)
